@@ -98,6 +98,7 @@ func (st *State) arr(name, elemSort string) string {
 		c = smtSym(name) + "_0"
 		ex.heapInit[name] = c
 		ex.heapSort[name] = elemSort
+		knownArrays[name] = true
 		ex.sorts[c] = arraySort(elemSort)
 	} else if ex.heapSort[name] != elemSort {
 		ex.unsupported("heap array %s used at sorts %s and %s", name, ex.heapSort[name], elemSort)
@@ -230,6 +231,7 @@ type Frame struct {
 	loopEntry  map[int]map[string]string // loop ordinal -> heap snapshot at loop entry (for old-at-entry)
 	parent     *Frame
 	lockSnap map[string]string
+	pseudo   bool
 	heldAtLoop []string
 	retInstr   ssa.Instruction
 }
